@@ -234,8 +234,12 @@ class AddressRange(collections.namedtuple(
                 return address
 
             elif not address.sheet:
-                start = AddressCell(address.start.coordinate, sheet=sheet)
-                end = AddressCell(address.end.coordinate, sheet=sheet)
+                # (by index: 'A' and '1', the corners of A:A and 1:1, are
+                #  not coordinates which can be parsed on their own)
+                start = AddressCell(
+                    (address.start.col_idx, address.start.row) * 2, sheet=sheet)
+                end = AddressCell(
+                    (address.end.col_idx, address.end.row) * 2, sheet=sheet)
 
             else:
                 raise ValueError(f"Mismatched sheets '{address}' and '{sheet}'")
